@@ -256,6 +256,19 @@ theorem sumOver_perm (f : Nat → Rat) {l1 l2 : List Nat} (h : l1.Perm l2) : sum
 theorem sumOver_append (f : Nat → Rat) (l1 l2 : List Nat) : sumOver f (l1 ++ l2) = sumOver f l1 + sumOver f l2 := by
   simp [sumOver, List.sum_append]
 
+theorem sumOver_flatten (f : Nat → Rat) (chunks : List (List Nat)) :
+    sumOver f chunks.flatten = (chunks.map (sumOver f)).sum := by
+  induction chunks with
+  | nil => simp [sumOver]
+  | cons c cs ih => simp [List.flatten_cons, sumOver_append, ih]
+
+/-- Unprotected accumulation by two threads (what a work-shared loop *without* a reduction clause may do):
+both read the shared scalar, then both write `old + own contribution`; the later write wins. -/
+def racyTwoThreads (s x y : Rat) : Rat :=
+  let readA := s; let readB := s
+  let _afterA := readA + x
+  readB + y
+
 /-! ## A built-in's generated code implements its documented formula -/
 
 /-- For every upper bound `n` and all argument values, running the generated code over the DoFs
